@@ -177,6 +177,7 @@ def _make_cfg(prop, seed, tier='quick', idx=0):
         copy_copy=bool(P.get('copy_copy')) and r.random() < P['copy_copy'],
         sift_tiny=bool(P.get('sift_tiny')), doc_cases=doc_cases,
         line_mode=bool(P.get('line_mode')) and r.random() < P['line_mode'].get(tier, 0.0),
+        ctor_perm=(r.randrange(1, 1 << 30) if r.random() < 0.15 else None),
     )
     if prop == 'C09' and r.random() < 0.1:
         # natural triggering at the default constants: no armed threshold,
